@@ -318,6 +318,37 @@ func c04JSON(c *Ctx, idx int) {
 	if pr2.Status != ref.ParseGap {
 		c.Nontrivial(lit2)
 	}
+	// a complete value, then k white-space characters, then junk (a decoder that reads in
+	// chunks may never look that far); and values whose text ends exactly at a chunk boundary
+	if idx%200 == 3 {
+		short := gen.JSONLayout(r, gen.Scalar(r))
+		if idx%400 == 3 {
+			short = gen.JSONLayout(r, gen.Array(r, 1))
+		}
+		short = strings.ReplaceAll(short, "`", "\\`")
+		for _, k := range []int{0, 1, 100, 507, 508, 509, 510, 511, 512, 513, 1000, 1535, 1536, 1537, 4096, 10000, 70000} {
+			ws := strings.Repeat(gen.Pick(r, []string{" ", "\n", "\t", " \r\n"}), k)
+			for _, junk := range []string{"]", "x", "1", "}", ",", "\"\"", "[]"} {
+				c.CheckGrammar("`"+short+ws+junk+"`", map[string]string{"family": "json-literal-trailing", "filler": fmt.Sprint(k)})
+				c.CheckGrammar("a[?b == `"+short+ws+junk+"`]", map[string]string{"family": "json-literal-trailing", "filler": fmt.Sprint(k)})
+			}
+			pr3 := c.CheckGrammar("`"+short+ws+"`", map[string]string{"family": "json-literal-padded", "filler": fmt.Sprint(k)})
+			if pr3.Status == ref.ParseOK {
+				c.Nontrivial(short, fmt.Sprint(k))
+			}
+		}
+		for _, total := range []int{511, 512, 513, 1535, 1536, 1537, 3583, 3584, 3585, 7679, 7680, 7681, 16384} {
+			// an array text of exactly `total` bytes
+			body := "[" + strings.Repeat("1,", (total-3)/2)
+			for len(body) < total-2 {
+				body += " "
+			}
+			body += "1]"
+			for _, junk := range []string{"", "]", "x", " 2", "}"} {
+				c.CheckGrammar("`"+body+junk+"`", map[string]string{"family": "json-literal-chunk-length", "bytes": fmt.Sprint(len(body))})
+			}
+		}
+	}
 	if idx%50 == 0 {
 		c.Sample(map[string]any{"literal": lit, "corrupted": lit2, "model_status_corrupted": fmt.Sprint(pr2.Status)})
 	}
